@@ -39,11 +39,11 @@ PER_ELEMENT = ['map', 'map', 'filter', 'accumulate', 'unique', 'union', 'slice']
 def plan(tier):
     if tier == 'thorough':
         return {'shards': 16, 'timeout_s': 1700}
-    return {'shards': 4, 'timeout_s': 280}
+    return {'shards': 8, 'timeout_s': 280}
 
 
 def n_cases(tier):
-    return {'A1': 700, 'A2': 700, 'B': 900, 'T': 40} if tier == 'thorough' else {'A1': 35, 'A2': 35, 'B': 45, 'T': 6}
+    return {'A1': 700, 'A2': 700, 'B': 900, 'T': 40} if tier == 'thorough' else {'A1': 90, 'A2': 90, 'B': 120, 'T': 6}
 
 
 def slow_sinks(prog, rng):
